@@ -307,6 +307,59 @@ def alloc_rooting(rec, F):
                 rec.finding(RW, "F4.heap-writers/%s/%s" % (field, fn2.path), "Allocator.%s is mutated outside the allocating functions and sweepers" % field, loc=fn2.loc, fn=fn2.path)
 
 
+def no_mark_after_evict(rec, F):
+    """sweep_intern_cache evicts the strings that are unmarked at that moment: everything that is going to be
+    marked in this collection has to be marked before it."""
+    R = rec.rule("F4.gc-mark-before-evict", "in every collection entry point of Allocator (collect_garbage, collect_garbage_with_value, helpers inlined) no marking call (Trace::trace / TraceRoot::trace / Allocator::trace / trace_root, directly or in a closure) can run after sweep_intern_cache on any path: a string reachable only through what is marked late loses its intern entry but survives, and the next equal string is a different object")
+    INTERN = ALLOC + "::sweep_intern_cache"
+    n = 0
+
+    def marks(f, t, depth=2):
+        if sem.is_trace_call(t) or t.get("decl") == "laythe_core::managed::manage::TraceRoot::trace":
+            return True
+        if lastseg(t["f"]) in ("trace", "trace_root") and t["f"].startswith(ALLOC):
+            return True
+        for cp in sem.closure_args_of_call(f, t):
+            c = F.fn(cp)
+            if c is not None and any(marks(c, tt, 0) for _, tt in c.calls()):
+                return True
+        if depth and t["f"].startswith(ALLOC) and t["f"] != INTERN and not lastseg(t["f"]).startswith("sweep"):
+            c = F.fn(t["f"])
+            if c is not None and c.kind != "Closure" and any(marks(c, tt, depth - 1) for _, tt in c.calls()):
+                return True
+        return False
+
+    def evicts(t, depth=2):
+        if t["f"] == INTERN:
+            return True
+        if depth and t["f"].startswith(ALLOC):
+            c = F.fn(t["f"])
+            if c is not None and c.kind != "Closure" and any(evicts(tt, depth - 1) for _, tt in c.calls()):
+                return True
+        return False
+    for nm in ("collect_garbage", "collect_garbage_with_value"):
+        fn = A(F, nm)
+        if fn is None:
+            rec.anchor_lost("F4.gc-mark-before-evict", "Allocator::" + nm)
+            continue
+        ev = [bi for bi, t in fn.calls() if evicts(t)]
+        if not ev:
+            rec.anchor_lost("F4.gc-mark-before-evict", "sweep_intern_cache reachable from " + nm)
+            continue
+        n += 1
+        late = []
+        for bi, t in fn.calls():
+            if bi in ev and evicts(t) and not (t["f"] != INTERN and marks(fn, t)):
+                continue
+            if marks(fn, t) and any(e != bi and sem.reaches(fn, e, bi) for e in ev):
+                late.append((bi, t))
+        ok = not late
+        rec.inst(R, "%s: nothing is marked after the intern table is swept" % nm, ok=ok, loc=fn.loc)
+        if not ok:
+            rec.finding(R, "F4.gc-mark-before-evict/%s" % nm, "Allocator::%s can call %s after sweep_intern_cache: strings reachable only through what that call marks (the constants of a function being allocated, a new class's name) are evicted from the intern table while they stay alive, so an equal string created later is a second object and compares unequal by identity" % (nm, lastseg(late[0][1]["f"])), loc=loc_of(late[0][1]["sp"]), fn=fn.path)
+    rec.floor(R, "collection entry points", n, 2)
+
+
 def sweeper_fns(F):
     """functions of Allocator that (through closures) call Unmark::unmark on heap members"""
     out = []
